@@ -11,6 +11,7 @@ static E10: Exhaustive = Exhaustive { focus: "C10" };
 static E11: Exhaustive = Exhaustive { focus: "C11" };
 static E12: Exhaustive = Exhaustive { focus: "C12" };
 static E13: Exhaustive = Exhaustive { focus: "C13" };
+static E14: Exhaustive = Exhaustive { focus: "C14" };
 static E15: Exhaustive = Exhaustive { focus: "C15" };
 static E16: Exhaustive = Exhaustive { focus: "C16" };
 static E19: Exhaustive = Exhaustive { focus: "C19" };
@@ -25,6 +26,7 @@ pub fn exhaustive_for(p: &str) -> &'static Exhaustive {
         "C11" => &E11,
         "C12" => &E12,
         "C13" => &E13,
+        "C14" => &E14,
         "C15" => &E15,
         "C16" => &E16,
         _ => &E19,
@@ -40,6 +42,7 @@ static X10: Chaos = Chaos { focus: "C10" };
 static X11: Chaos = Chaos { focus: "C11" };
 static X12: Chaos = Chaos { focus: "C12" };
 static X13: Chaos = Chaos { focus: "C13" };
+static X14: Chaos = Chaos { focus: "C14" };
 static X15: Chaos = Chaos { focus: "C15" };
 static X16: Chaos = Chaos { focus: "C16" };
 static X19: Chaos = Chaos { focus: "C19" };
@@ -54,6 +57,7 @@ pub fn chaos_for(p: &str) -> &'static Chaos {
         "C11" => &X11,
         "C12" => &X12,
         "C13" => &X13,
+        "C14" => &X14,
         "C15" => &X15,
         "C16" => &X16,
         _ => &X19,
@@ -67,6 +71,7 @@ static H10: Hist = Hist { name: "adversarial-history", focus: "C10" };
 pub static H11: Hist = Hist { name: "adversarial-history", focus: "C11" };
 pub static H12: Hist = Hist { name: "adversarial-history", focus: "C12" };
 static H13: Hist = Hist { name: "exact-timer-history", focus: "C13" };
+pub static H14: Hist = Hist { name: "adversarial-history", focus: "C14" };
 static H15: Hist = Hist { name: "adversarial-history", focus: "C15" };
 static H16: Hist = Hist { name: "adversarial-history", focus: "C16" };
 static H19: Hist = Hist { name: "adversarial-history", focus: "C19" };
